@@ -86,6 +86,9 @@ def gen_plan(wl, fr, idx):
     plan = {'band': band}
     nsig = wl.randint(1, 3)
     plan['signals'] = [gen_signal_spec(wl, band, k) for k in range(nsig)]
+    for spec in plan['signals']:
+        if wl.random() < 0.2:
+            spec['variant'] = wl.choice(('f32', 'strided', 'strided', 'int'))
     n2 = wl.randint(2, 3)
     plan['array2d'] = [gen_signal_spec(wl, band, 10 + k) for k in range(n2)]
     shape = list(wl.choice([(1, 2), (2, 1), (2, 2)]))
@@ -188,6 +191,14 @@ def _gen_session(wl, plan, s, plots):
                 fn = wl.choice(('ampfrac', 'ampcons', 'percons', 'mono', 'bfrac')) if t['kind'] != 'samples' \
                     else wl.choice(('mono', 'bfrac'))
                 ops.append({'fn': fn, 'table': t['name'], 'sig': t['sig']})
+        elif r < 0.69:
+            t = pick(('samples',))
+            if t is None:
+                ops.append({'fn': 'cyclepoints', 'sig': sig, 'fe': wl.choice((None, 'FE0', 'FE1'))})
+                t = {'name': rname_prev(s, ops), 'kind': 'samples', 'sig': sig, 'center': 'peak', 'samples': True}
+                avail.append(t)
+            ops.append({'fn': wl.choice(('durations', 'extvolt', 'symmetry', 'bandamp')),
+                        'table': t['name'], 'sig': t['sig']})
         elif r < 0.74:
             ck = wl.choice((None, 'CK0', 'CK1', 'CK2', 'list'))
             axis = wl.choice((0, 0, None))
@@ -280,7 +291,17 @@ class ArgPool:
         self.objs = {}
         self.kind = {}
         for k, spec in enumerate(plan['signals']):
-            self._add('S%d' % k, build_signal(spec, band), 'signal')
+            sig = build_signal(spec, band)
+            v = spec.get('variant')
+            if v == 'f32':
+                sig = sig.astype(np.float32)
+            elif v == 'strided':              # a non-contiguous view into a larger buffer
+                base = np.zeros(2 * len(sig) + 1)
+                base[1::2] = sig
+                sig = base[1::2]
+            elif v == 'int':
+                sig = np.round(sig * 100).astype(np.int64)
+            self._add('S%d' % k, sig, 'signal')
         self._add('A0', np.array([build_signal(s, band) for s in plan['array2d']]), 'array2d')
         sh = plan['array3d']['shape']
         arr = np.array([build_signal(s, band) for s in plan['array3d']['specs']])
@@ -430,6 +451,18 @@ def build_call(op, get, band):
         return FB.compute_monotonicity, (get(op['table']), get(op['sig'])), {}
     if fn == 'bfrac':
         return FB.compute_burst_fraction, (get(op['table']), get(op['sig']), fs, f_range), {}
+    if fn == 'durations':
+        import bycycle.features.shape as SHP
+        return SHP.compute_durations, (get(op['table']),), {}
+    if fn == 'extvolt':
+        import bycycle.features.shape as SHP
+        return SHP.compute_extrema_voltage, (get(op['table']), get(op['sig'])), {}
+    if fn == 'symmetry':
+        import bycycle.features.shape as SHP
+        return SHP.compute_symmetry, (get(op['table']), get(op['sig'])), {}
+    if fn == 'bandamp':
+        import bycycle.features.shape as SHP
+        return SHP.compute_band_amp, (get(op['table']), get(op['sig']), fs, f_range), {}
     if fn in ('cf2d', 'cf3d'):
         ck = op['ck']
         if isinstance(ck, list):
